@@ -978,6 +978,10 @@ UNITS += [Composition]
 # buffer() is an operator too: its meaning is the identity on the stream (order, exactly once). Proved by the Buffer units shared with C05/C08.
 from contracts.buffer import RunWorker, RunWorkerNoExtern, BufIter, BufStart      # noqa: E402
 UNITS += [RunWorker, RunWorkerNoExtern, BufIter, BufStart]
+# parmap() is an operator too: order, exactly-once and the bounded look-ahead are fifo_stream's contract (units shared with C01/C08)
+from contracts.fifo import FeedUnit, FeedUnitNoPre, ConsumerUnit, ConsumerUnitNoPre      # noqa: E402
+from contracts.c01 import ParmapperInit, ParmapperInitDefault, ParmapperIter, ParmapperIterProcess      # noqa: E402
+UNITS += [FeedUnit, FeedUnitNoPre, ConsumerUnit, ConsumerUnitNoPre, ParmapperInit, ParmapperInitDefault, ParmapperIter, ParmapperIterProcess]
 NOT_DECIDED = ('user functions passed to map/filter/accumulate are modelled as uninterpreted functions of their argument (statefulness other than Accumulator/Peeker is outside the model)',
                'unbatch of general iterables (only list/tuple elements are modelled)',
                'meaning of itertools.groupby, random.shuffle/randrange, functools.partial, list() (trusted stdlib contracts)')
